@@ -65,6 +65,14 @@ def search(ctx, N):
             kind = 5
         x = gen_nodes(rng, m, kind)
         x0 = float(rng.normal()) if t % 3 else float(x[rng.integers(0, m)])
+        if t % 7 == 6 and m >= 4:
+            # end points mirror each other about x0 but the inner nodes do not (and a permuted variant): nothing here is a symmetric stencil
+            inner = np.sort(rng.uniform(-0.9, 0.9, size=m - 2))
+            x = np.concatenate([[-1.0], inner, [1.0]])
+            if t % 2:
+                x = np.concatenate([x[:1], rng.permutation(x[1:-1]), x[-1:]])
+            x0 = 0.0
+            kind = 6
         if t % 6 == 5 and kind != 5:
             # the same node shapes on a tiny length scale (1e-12 .. 1e-20): distinct nodes are distinct at any scale
             sc = float(10.0 ** rng.integers(-20, -11))
